@@ -81,11 +81,12 @@ func runC09(c *eng.Ctx) {
 	p := e1Product(c)
 	// unknown-value configurations put every kind in the "unknown value" placement
 	if c.Thorough() {
-		p.cfgs = append(p.cfgs, Cfg{Tag: "bexpr", Unknown: NNilAny()}, Cfg{Tag: "bexpr", Unknown: NNilPtr(TInt)}, Cfg{Tag: "bexpr", Unknown: &Node{T: Sc(KChan, false)}})
+		p.cfgs = append(p.cfgs, Cfg{Tag: "bexpr", Unknown: NNilAny()}, Cfg{Tag: "bexpr", Unknown: NNilPtr(TInt)}, Cfg{Tag: "bexpr", Unknown: &Node{T: Sc(KChan, false)}},
+			Cfg{Tag: "bexpr", Unknown: NNilAny(), Hook: HookIdentity}, Cfg{Tag: "bexpr", Unknown: NNilAny(), Hook: HookUnwrap}, Cfg{Tag: "bexpr", Unknown: NNilPtr(TInt), Hook: HookSwap})
 	} else {
 		p.cfgs = append(p.cfgs, Cfg{Tag: "bexpr", Unknown: NNilAny()})
 	}
-	p.run(c, func(src string, e any, d *Node, cfg Cfg, want int, got obsT, co map[string]int) {
+	judge9 := func(src string, e any, d *Node, cfg Cfg, want int, got obsT, co map[string]int) {
 		c.R.States++
 		switch {
 		case got.panicked:
@@ -96,7 +97,18 @@ func runC09(c *eng.Ctx) {
 			c.Count(SetStr(got.class))
 			c.Sample(describe(src, d, cfg))
 		}
-	})
+	}
+	p.run(c, judge9)
+	// option COMBINATIONS (hook x nil unknown value x tag) over the reduced product of the configuration slice
+	if !c.Replaying() || c.Only["slice"] == 1 {
+		cs := configSlice(c)
+		cs.cfgs = append(cs.cfgs, Cfg{Tag: "bexpr", Unknown: NNilAny(), Hook: HookIdentity}, Cfg{Tag: "bexpr", Unknown: NNilAny(), Hook: HookUnwrap}, Cfg{Tag: "json", Unknown: NNilPtr(TInt), Hook: HookSwap},
+			Cfg{Tag: "", Unknown: NNilAny(), Hook: HookConst})
+		cs.run(c, func(src string, e any, d *Node, cfg Cfg, want int, got obsT, co map[string]int) {
+			co["slice"] = 1
+			judge9(src, e, d, cfg, want, got, co)
+		})
+	}
 	// "every expression accepted by CreateEvaluator" also means strings nobody would write: every accepted token sequence of the language
 	// explorer's alphabets (a dangling operator, a keyword as identifier, ...) is evaluated on the probe data of C10
 	if _, replayingOther := c.Only["e"]; !replayingOther && c.Want("f", 9) {
